@@ -1,6 +1,5 @@
 import Pyunicorn.Model.Proto
 import Pyunicorn.Model.Events
-import Pyunicorn.Generated.StructC16
 /-! Line-protocol driver for C16: one request per line on stdin, one answer per line. -/
 open Pyunicorn Pyunicorn.Proto Pyunicorn.Events
 
@@ -45,10 +44,6 @@ def symm? : String → Option Symm
   | "max" => some .max
   | "min" => some .min
   | _ => none
-
-def symmStr : Symm → String
-  | .directed => "directed" | .symmetric => "symmetric" | .antisym => "antisym"
-  | .mean => "mean" | .max => "max" | .min => "min"
 
 def answer (toks : List String) : String :=
   match toks with
@@ -124,14 +119,12 @@ def answer (toks : List String) : String :=
         | some M => showMat showOptRat M
       | _, _ => "bad-request"
   -- round 3: a history of ES requests on one object; every returned array is read at the
-  -- END of the history (the helper table is the one generated from the source)
+  -- END of the history (helper table `stdHelper`; `gen_symm_table` ties it to the source)
   | ["eshist", ts, e, n, tm, lag, hist] =>
       let n := n.toNat!
       let reqs := (splitTok hist ",").filterMap symm?
-      let hp : Symm → SymHelper := fun s =>
-        (Pyunicorn.Generated.StructC16.symmOptions.lookup (symmStr s)).getD ⟨.arg, false, true⟩
       let compute := esMatrix (rats ts) (boolMat e) n (optRat tm) (ratD lag)
-      let r := runHistory compute (esApply n) hp ⟨[], none⟩ reqs
+      let r := runHistory compute (esApply n) stdHelper ⟨[], none⟩ reqs
       join (r.2.map fun a => match r.1.heap[a]? with
         | some M => showMat showESEntry M
         | none => "unallocated") "|"
